@@ -110,7 +110,7 @@ func c17Monitor(args []string) int {
 	mg := movegen.NewMoveGen()
 	decos := []string{"", "+", "#", "!", "?", "!?", "+!", "#!!"}
 	seen := map[uint64]bool{}
-	w.Stream(n, true, func(g GamePos) {
+	body := func(g GamePos) {
 		p := g.P
 		fen := p.StringFen()
 		if !seen[uint64(p.ZobristKey())] {
@@ -204,7 +204,72 @@ func c17Monitor(args []string) int {
 			}
 		}
 		rep.Sample(map[string]interface{}{"fen": fen, "legal_moves": len(legal)})
-	})
+	}
+	w.Stream(n, true, body)
+	// an officer on a king's home square that can go to a corner of its rank while castling rights still exist
+	// (the coordinate strings e1a1 / e1h1 / e8a8 / e8h8 are then ordinary moves, not castling spellings)
+	for k := 0; k < 6+n/100; k++ {
+		var board [64]byte
+		for i := range board {
+			board[i] = ' '
+		}
+		white := rng.Bool()
+		home, far := 0, 56 // rank offsets of the mover's and the opponent's back rank
+		if !white {
+			home, far = 56, 0
+		}
+		up := func(c byte) byte {
+			if white {
+				return c
+			}
+			return c + 32
+		}
+		down := func(c byte) byte {
+			if white {
+				return c + 32
+			}
+			return c
+		}
+		board[home+4] = up("RQ"[rng.Intn(2)])
+		board[home+[]int{1, 2, 6}[rng.Intn(3)]] = up('K')
+		board[far+4] = down('K')
+		if white { // the file between the officer and the other king is closed
+			board[8+4] = 'P'
+		} else {
+			board[48+4] = 'p'
+		}
+		rights := ""
+		if rng.Bool() {
+			board[far+7] = down('R')
+			rights += string(down('K'))
+		}
+		if rights == "" || rng.Bool() {
+			board[far+0] = down('R')
+			rights += string(down('Q'))
+		}
+		if white { // FEN order: white rights first (none here), then black
+			rights = strings.ToLower(rights)
+		} else {
+			rights = strings.ToUpper(rights)
+		}
+		for i, cnt := 0, rng.Intn(5); i < cnt; i++ {
+			sq := 8 + rng.Intn(48)
+			if board[sq] == ' ' {
+				board[sq] = "PNBpnb"[rng.Intn(6)]
+			}
+		}
+		stm := "w"
+		if !white {
+			stm = "b"
+		}
+		fen := compressFenBoard(board) + " " + stm + " " + rights + " - 0 1"
+		p, err := position.NewPositionFen(fen)
+		if err != nil || p == nil || p.IsAttacked(p.KingSquare(p.NextPlayer().Flip()), p.NextPlayer()) {
+			continue
+		}
+		rep.Stats["officer_on_king_home_square_positions"]++
+		body(GamePos{Root: fen, P: p})
+	}
 	return rep.Emit()
 }
 
